@@ -211,16 +211,52 @@ func (f *Frame) rowField(st *State, t *tableSpec, ref *Term, field string) *Term
 	return f.load(st, LHeapField{ref: ref, st: rt, idx: idx})
 }
 
-// rowWellFormed: a stored row is allocated and filed under its own key (rows are immutable once inserted).
-func (f *Frame) rowWellFormed(st *State, t *tableSpec, k, r *Term) {
+// rowWellFormed / tableWF: table well-formedness, assumed for every table state (A-MEMDB-ROWS): a stored row is
+// allocated and filed under its own (normalised) key -- rows are immutable once inserted -- and keys the id
+// indexer rejects are never present.
+func (f *Frame) rowWellFormed(st *State, t *tableSpec, k, r *Term) { f.tableWF(st, t) }
+
+func (f *Frame) tableWF(st *State, t *tableSpec) {
 	c := f.c
+	tb := f.tableArr(st, t)
 	al := c.heapGet(st, "ALLOC", ArrSort(SInt, SBool))
-	work := st.clone()
-	key := f.rowKey(work, t, r)
-	c.assume(st, Implies(Ne(r, IntLit(0)), And(Select(al, r), Eq(key, k))))
+	k := c.bvar("k", SStr)
+	r := Select(tb, k)
+	w := st.clone()
+	w.pc = TTrue
+	c.inQuant++
+	key := f.rowKey(w, t, r)
+	c.inQuant--
+	body := Forall([]*Term{k}, Implies(Ne(r, IntLit(0)), And(Select(al, r), Eq(key, k))), r)
 	if t.emptyKeyFails {
-		c.assume(st, Eq(Select(f.tableArr(st, t), Sym("strEmpty", SStr)), IntLit(0)))
+		body = And(body, Eq(Select(tb, Sym("strEmpty", SStr)), IntLit(0)))
 	}
+	// cache by the text of the formula modulo the bound variable's name
+	txt := strings.ReplaceAll(renderTerm(body), k.Op, "|k?|")
+	if c.wfCache == nil {
+		c.wfCache = map[string]*Term{}
+	}
+	name, ok := c.wfCache[txt]
+	if c.inQuant > 0 {
+		c.pendingWF = append(c.pendingWF, t)
+		return
+	}
+	if !ok {
+		name = c.fresh("wf!"+t.name, SBool)
+		c.defs = append(c.defs, fmt.Sprintf("(assert (= %s %s))", name.Op, renderTerm(body)))
+		c.wfCache[txt] = name
+	}
+	if c.inQuant > 0 {
+		return
+	}
+	if st.pc.Op == "and" {
+		for _, a := range st.pc.Args {
+			if a == name {
+				return
+			}
+		}
+	}
+	c.assume(st, name)
 }
 
 func constString(f *Frame, e ast.Expr) (string, bool) {
@@ -609,6 +645,18 @@ func modelNewTxn(f *Frame, st *State, e *ast.CallExpr, recv *Term, args []*Term,
 		a := c.heapGet(st, h, ArrSort(SInt, SBool))
 		c.heapSet(st, h, Store(a, tx, TFalse))
 	}
+	// the embedded *memdb.Txn of a *state.txn is identified with the wrapper
+	if rt := sig.Results().At(0).Type(); rt != nil {
+		if el, ok := deref(rt); ok {
+			if stt, ok2 := types.Unalias(el).Underlying().(*types.Struct); ok2 {
+				for i := 0; i < stt.NumFields(); i++ {
+					if stt.Field(i).Name() == "Txn" && stt.Field(i).Embedded() {
+						f.store(st, LHeapField{ref: tx, st: el, idx: i}, tx)
+					}
+				}
+			}
+		}
+	}
 	return []*Term{tx}
 }
 
@@ -633,7 +681,10 @@ func modelCommitRaw(f *Frame, st *State, e *ast.CallExpr, recv *Term, args []*Te
 	tx := txRef(recv)
 	cm := c.heapGet(st, "TX!committed", ArrSort(SInt, SBool))
 	ab := c.heapGet(st, "TX!aborted", ArrSort(SInt, SBool))
-	c.heapSet(st, "TX!committed", Store(cm, tx, Or(Select(cm, tx), Not(Select(ab, tx)))))
+	done := And(Not(Select(ab, tx)), Not(Select(cm, tx)))
+	c.heapSet(st, "TX!committed", Store(cm, tx, Or(Select(cm, tx), done)))
+	nc := c.heapGet(st, "TX!ncommits", ArrSort(SInt, SInt))
+	c.heapSet(st, "TX!ncommits", Store(nc, IntLit(0), Ite(done, Add(Select(nc, IntLit(0)), IntLit(1)), Select(nc, IntLit(0)))))
 	return nil
 }
 
@@ -645,6 +696,9 @@ func modelCommit(f *Frame, st *State, e *ast.CallExpr, recv *Term, args []*Term,
 	failed := c.fresh("commitErr", SBool)
 	cm := c.heapGet(st, "TX!committed", ArrSort(SInt, SBool))
 	ab := c.heapGet(st, "TX!aborted", ArrSort(SInt, SBool))
-	c.heapSet(st, "TX!committed", Store(cm, tx, Or(Select(cm, tx), And(Not(failed), Not(Select(ab, tx))))))
+	done := And(Not(failed), Not(Select(ab, tx)), Not(Select(cm, tx)))
+	c.heapSet(st, "TX!committed", Store(cm, tx, Or(Select(cm, tx), done)))
+	nc := c.heapGet(st, "TX!ncommits", ArrSort(SInt, SInt))
+	c.heapSet(st, "TX!ncommits", Store(nc, IntLit(0), Ite(done, Add(Select(nc, IntLit(0)), IntLit(1)), Select(nc, IntLit(0)))))
 	return []*Term{Ite(failed, f.someError(), IfaceNil)}
 }
